@@ -22,6 +22,14 @@ def install():
             raise Inconclusive("inet_ntoa of symbolic octets (dotted-quad text of a symbolic address is not modelled)")
         return socket.inet_ntoa(b)
     runtime._DISPATCH[socket.inet_ntoa] = _inet_ntoa
+    import binascii
+
+    def _hexlify(d, *a):
+        from sxl.sbytes import SBytes
+        if isinstance(d, SBytes):
+            return runtime.OpaqueStr("<sym-hex>")
+        return binascii.hexlify(d, *a)
+    runtime._DISPATCH[binascii.hexlify] = _hexlify
     try:
         from kaitaistruct import KaitaiStream
         from sxl import kstream
